@@ -1,13 +1,14 @@
 // Package term is the exchange format between the Go harness, the Python orchestrator
 // and the Coq case files.  A term is JSON:
-//   integer            -> Z literal
-//   {"n": k}           -> nat literal
-//   true/false         -> bool
-//   "text"             -> string literal
-//   [a, b, ...]        -> list
-//   {"c": "Name", "a": [args]} -> constructor / function application
-//   {"t": [a, b, ...]} -> tuple
-//   {"f": "<bits>"}    -> binary64 given by its bit pattern (decimal string)
+//
+//	integer            -> Z literal
+//	{"n": k}           -> nat literal
+//	true/false         -> bool
+//	"text"             -> string literal
+//	[a, b, ...]        -> list
+//	{"c": "Name", "a": [args]} -> constructor / function application
+//	{"t": [a, b, ...]} -> tuple
+//	{"f": "<bits>"}    -> binary64 given by its bit pattern (decimal string)
 package term
 
 import (
@@ -31,14 +32,22 @@ func L(items ...T) T {
 	}
 	return items
 }
-func Tup(items ...T) T    { return map[string]any{"t": items} }
-func Nat(n int) T         { return map[string]any{"n": int64(n)} }
-func F(x float64) T       { return map[string]any{"f": strconv.FormatUint(math.Float64bits(x), 10)} }
-func I(n int64) T         { return n }
-func B(b bool) T          { return b }
-func S(s string) T        { return s }
-func Some(x T) T          { return C("Some", x) }
-func None() T             { return C("None") }
+func Tup(items ...T) T { return map[string]any{"t": items} }
+func Nat(n int) T      { return map[string]any{"n": int64(n)} }
+
+// F encodes a binary64 by its bit pattern; every NaN is canonicalised to 0x7FF8000000000000 (Coq has a
+// single NaN, and the sign / payload of a hardware NaN is not something a property speaks about)
+func F(x float64) T {
+	if x != x {
+		return map[string]any{"f": "9221120237041090560"}
+	}
+	return map[string]any{"f": strconv.FormatUint(math.Float64bits(x), 10)}
+}
+func I(n int64) T  { return n }
+func B(b bool) T   { return b }
+func S(s string) T { return s }
+func Some(x T) T   { return C("Some", x) }
+func None() T      { return C("None") }
 
 // ---- decoding (after a JSON round trip numbers are json.Number) ----
 
@@ -80,7 +89,7 @@ func Float(t T) float64 {
 	return math.Float64frombits(u)
 }
 
-func Bool(t T) bool { return t.(bool) }
+func Bool(t T) bool  { return t.(bool) }
 func Str(t T) string { return t.(string) }
 
 func List(t T) []T {
